@@ -96,6 +96,24 @@ class Operand:
 
     def __init__(self, ht, y, tops, info):
         self.ht, self.y, self.tops, self.info = ht, y, tops, info
+        # what the caller holds before the library is called: the factors must reproduce *this*, also afterwards
+        self.pre = (y, np.array(y._data, copy=True), y.struct, y.slices, getattr(y, "trans", None), y.mfs, y.hfs)
+
+    def input_changed(self):
+        """None, or a text saying how the tensor object handed to the library differs from its state at construction."""
+        y0, data, struct, slices, trans, mfs, hfs = self.pre
+        if y0 is not self.y:
+            return None
+        y = self.y
+        if y.struct != struct or y.slices != slices or getattr(y, "trans", None) != trans or y.mfs != mfs or y.hfs != hfs:
+            return "metadata (struct / slices / trans / fusion) of the input object changed"
+        now = np.asarray(y._data)
+        if now.shape != data.shape:
+            return f"data buffer of the input object changed shape {data.shape} -> {now.shape}"
+        if not np.array_equal(now, data, equal_nan=True):
+            k = int(np.argmax(now != data))
+            return f"data buffer of the input object changed ({int(np.sum(now != data))} of {data.size} entries, first at {k}: {data[k]!r} -> {now[k]!r})"
+        return None
 
     @property
     def nlegs(self):
